@@ -2,6 +2,8 @@
 #define AI_TOOLBOX_UTILS_POLYTOPE_HEADER_FILE
 
 #include <array>
+#include <cmath>
+#include <algorithm>
 #include <optional>
 
 #include <Eigen/Dense>
@@ -364,10 +366,30 @@ namespace AIToolbox {
 
         Vector result(S+1);
 
+        // Where the planes meet does not change when all of them are
+        // multiplied by the same positive factor (only the value there is
+        // multiplied too). With entries around 2^20 the rows of the planes
+        // dwarf the simplex row, the rank-revealing QR below takes the system
+        // for singular and no vertex is found; so we bring the planes to order
+        // one with an exact power of two. Magnitudes below 2^16 are left
+        // alone, so that nothing changes there.
+        double scale = 1.0;
+        {
+            double maxEntry = 0.0;
+            for (auto it = beginNew; it != endNew; ++it)
+                maxEntry = std::max(maxEntry, static_cast<double>(std::invoke(p1, *it).cwiseAbs().maxCoeff()));
+            for (auto it = alphasBegin; it != alphasEnd; ++it)
+                maxEntry = std::max(maxEntry, static_cast<double>(std::invoke(p2, *it).cwiseAbs().maxCoeff()));
+            if (maxEntry > 0.0 && std::isfinite(maxEntry)) {
+                const int e = std::ilogb(maxEntry);
+                if (std::abs(e) > 16) scale = std::ldexp(1.0, -e);
+            }
+        }
+
         // Common matrix/vector setups
 
         for (auto newVIt = beginNew; newVIt != endNew; ++newVIt) {
-            m.row(0).head(S) = std::invoke(p1, *newVIt);
+            m.row(0).head(S) = std::invoke(p1, *newVIt) * scale;
 
             enumerator.reset();
 
@@ -383,7 +405,7 @@ namespace AIToolbox {
                     const auto index = (*enumerator)[i];
                     if (index < alphasSize) {
                         // Copy the right vector in the matrix.
-                        m.row(i + 1).head(S) = std::invoke(p2, *std::next(alphasBegin, index));
+                        m.row(i + 1).head(S) = std::invoke(p2, *std::next(alphasBegin, index)) * scale;
                         m.row(i + 1)[S] = -1;
                     } else {
                         // We limit the index-th dimension (minus alphasSize to
@@ -408,7 +430,7 @@ namespace AIToolbox {
                 if ((result.head(S).array() >= 0).all() && (max < 1.0) && checkDifferentSmall(max, 1.0) &&
                     (m * result - b).cwiseAbs().maxCoeff() < equalToleranceSmall) {
                     vertices.first.emplace_back(result.head(S));
-                    vertices.second.emplace_back(result[S]);
+                    vertices.second.emplace_back(result[S] / scale);
                 }
 
                 // Advance, and take the id of the first index changed in the
